@@ -89,6 +89,11 @@ class MapGen:
         if self.opts.get("dup_texts", True) and self.rng.random() < 0.15:
             # the same text stored under two ids; editors refer to the last one
             self.texts.append(text)
+            if self.opts.get("interleaved_ids") and self.rng.random() < 0.7:
+                # ... and under a THIRD, later id that shares the FIRST id's offset: ids a < b < c with a and c on one
+                # offset, b on another, all the same text; references use c
+                self.texts.append(text)
+                self.share_first = getattr(self, "share_first", set()) | {len(self.texts) - 1}
             if self.form == "wild" and self.rng.random() < 0.5:
                 return len(self.texts) - 1
         return len(self.texts)
@@ -122,7 +127,8 @@ class MapGen:
         for i in range(nloc):
             if i == 63:
                 locs.append({"_left_x1": 0, "_top_y1": 0, "_right_x2": 4096, "_bottom_y2": 4096,
-                             "_string_id": self.sid("Anywhere"), "_elevation_flags": 0})
+                             "_string_id": self.sid("Anywhere"),
+                             "_elevation_flags": rng.choice([0, 0, 0x15, rng.randrange(64)]) if self.opts.get("anywhere_flags") else 0})
             elif self.opts.get("degenerate_locs") and i in (4, 9, 14, 19, 24, 29):
                 # the neighbourhood of "is this slot unused": records that are all zero but for ONE field, and a zero-area
                 # point location (left = right, top = bottom) without name and flags
@@ -229,6 +235,9 @@ class MapGen:
         trigs = [self.trigger() for _ in range(self.opts.get("ntrig", rng.choice([0, 1, 2, 4])))]
         if self.cuwp_twins and self.loc_ids:
             trigs.append(self.trigger_referencing("cuwp", self.cuwp_twins))
+        if self.opts.get("use_low_switches") and self.low_unnamed:
+            # existing triggers use the LOWEST unnamed switch numbers: occupied slots that carry no name
+            trigs.append(self.trigger_referencing("switch", self.low_unnamed))
         if self.opts.get("sweep"):
             trigs += self.sweep_triggers()
         # assemble sections
@@ -289,6 +298,9 @@ class MapGen:
                 b = t.encode("ascii") + b"\0"
             data += b
             pos += len(b)
+        for k in getattr(self, "share_first", ()):
+            if k < len(texts):
+                offs[k] = offs[texts.index(texts[k])]
         for _ in range(extra_ids):
             offs.append(offs[0])
         if self.opts.get("header_ptr") and n + extra_ids < 256 and "" in texts:
